@@ -75,6 +75,9 @@ def check_c08(tier):
     for c in list(cases.values())[:3]:
         rep.sample({"ver": c["x"]["ver"], "uri": txt(c["x"]["uri"])[:80], "signature_header": txt(c["x"]["sighdr"])[:160], "header_block_len": len(c["hdrs"]), "file_len": len(c["file"])})
     _neg_full(rep, "C08", cases)
+    # the command-line entry point: flag text -> file, with both debugging dumps compared with the specification's bytes
+    from cli_checks import sxg_cli
+    sxg_cli(rep, "C08")
     rep.assumptions = ["certificate chains have at least one certificate", "dates >= 0", "header names are ASCII tokens; URLs are those url.URL.String() leaves unchanged"]
     return rep.finish()
 
@@ -124,6 +127,8 @@ def check_c02(tier):
     # reading back must not depend on how the file is delivered (ReaderFaults.tla)
     from rf_checks import reader_faults
     reader_faults(rep, "C02", ["sxg"], tier)
+    from cli_checks import sxg_cli
+    sxg_cli(rep, "C02")
     return rep.finish()
 
 
